@@ -49,6 +49,10 @@ CHECKS = {
           "The expected result comes from a reference written directly on the tree (norm: what reaches the logic; conforms / coerce: output coercion incl. singleton wrapping and unwrapping); results are compared as rendered values with nested nulls normalised.",
           "Trusts the reference in engines/c11.rs. Null items of a collection and contexts with missing or additional entries on the input side, and allowed values on output types, are left open (executed, counted, not compared). Trees beyond depth 3/4, components other than (varied, number) pairs, and item definitions with function types are outside the bound.",
           "DESIGN.md §4 C11"),
+  "C12": ("crash-isolated bounded exhaustive fault injection in two build profiles (release; release with overflow checks and debug assertions): the unmutated corpus (149 shipped example models + 6 generated models of the C04 / C11 generators); every single structural fault at every position (delete / duplicate / empty / swap element, delete / empty attribute, empty text node, retarget every href to a missing id and to every other requirable element, retarget every typeRef to every item definition incl. its own) of the smaller half (quick) / all (thorough) of the shipped models and of the generated ones; every ordered pair of non-overlapping single faults on the generated models; every single-byte corruption (delete; replace by NUL < > \" & 0xFF) at every offset of the smallest models",
+          "Each mutant is loaded with dmntk_model::parse, built with ModelEvaluator::new and every decision, knowledge model and decision service it declares is invoked with three input contexts, in a worker process that announces the case index in a memory-mapped file before running it under catch_unwind; a worker that panics, dies by a signal or abort (stack overflow), or makes no progress within the stall limit is attributed to that case and restarted behind it. Verdict: no mutant crashes or hangs, in either profile.",
+          "Values are not judged. Faults beyond pairs on large models, and multi-byte corruptions, are outside the bound; the stall limit is 10 s (quick) / 30 s (thorough); worker address space is limited to 4 GiB; the main-thread stack is the default 8 MiB. A model whose unmutated text already crashes (listed finding N_0088) is reported once and not mutated.",
+          "DESIGN.md §4 C12"),
   "C14": ("exhaustive enumeration of literal lattices (every day incl. impossible days of 16-22 boundary years; every second of the day x fraction-digit counts x digit patterns; every whole-minute offset -14:59..+14:59 x seconds variants and the first rejected hours; every zone identifier of the zone database; date-time products; duration component products; every single-character corruption of valid literals) against a reference literal grammar and printer",
           "Each literal is read through four paths (date()/time()/date and time()/duration(), the @-literal, the TryFrom/FromStr API, the xsd input conversion). A literal the reference grammar accepts must be accepted on every path, print as the reference's canonical text, expose the written components, and string(v) must read back as an equal value; a literal the grammar rejects must be null on every path. Failures are attributed to the single feature (year, fraction, zone, offset) whose neutralisation makes the literal behave.",
           "Trusts reftime.rs (no chrono, no floating point). Year 0000, offset minutes above 59, more than nine fraction digits and `PT1.S` (pinned as valid by the repository's tests) are left unspecified. Times of day in named zones are only checked for acceptance and printing.",
